@@ -32,7 +32,7 @@ def body(c):
     if sat == 0 or ties == 0:
         raise MachineryError("vacuity: no saturating / no tie lattice point")
     out = c.harness("h_qsym.py", {"elem_cases": elem, "tensor_cases": tens})
-    traces = out["traces"]
+    traces = c.screen(out["traces"], "Trace_QSym", chunk=12, constants={"KSet": "{}", "Shapes": "{}"})
     if out["unrepresentable_batches"]:
         raise MachineryError(f"{out['unrepresentable_batches']} batches not representable although the spec says so")
     res = c.validate("Trace_QSym", traces, chunk=12, constants={"KSet": "{}", "Shapes": "{}"})
@@ -56,6 +56,7 @@ def body(c):
     devs = c.dev_constants(["Dev_C16_AbsmaxOverflow", "Dev_C16_F8ZeroScale", "Dev_C02_NoZeroHull"])
     wide = c.harness("h_qnum.py", {"mode": "sym_wide", "seed": c.seed, "half_step": 32 if c.quick else 1,
                                    "nscales": 4 if c.quick else 7, "random": 300 if c.quick else 3000}, timeout=3000)["traces"]
+    wide = c.screen(wide, "Trace_QNum", chunk=24, constants=devs, timeout=1500)
     wres = c.validate("Trace_QNum", wide, chunk=24, constants=devs, timeout=1500)
     c.judge(wide, wres, describe=lambda tr: {k: tr[0].get(k) for k in ("qt", "fmt", "axis", "shape", "tag", "route")})
     # the repository's own tests as a driver: every call of the symmetric quantizer they make is validated as well
